@@ -7,6 +7,9 @@ static char line[1 << 20], a1[1 << 19], a2[1 << 19];
 static unsigned char b1[1 << 18], b2[1 << 18];
 static long ncmp_calls;
 static int (*base_cmp)(const void *, size_t, const void *, size_t);
+/* the byte ordering computed by a comparator that leaves errno set, as one built on strtoul()/strcoll() may (ERANGE): what a
+   comparator leaves in errno is not a result of the table operation */
+static int errno_cmp(const void *a, size_t na, const void *b, size_t nb) { int r = qtreetbl_byte_cmp(a, na, b, nb); errno = ERANGE; return r; }
 static int rev_cmp(const void *a, size_t la, const void *b, size_t lb) { return qtreetbl_byte_cmp(b, lb, a, la); }
 static int len_cmp(const void *a, size_t la, const void *b, size_t lb) {
     if (la != lb) return la < lb ? -1 : 1;
@@ -63,7 +66,7 @@ int main(void) {
         char op[32]; a1[0] = a2[0] = 0;
         sscanf(line, "%31s %s %s", op, a1, a2);
         if (!strcmp(op, "cmp") || !strcmp(op, "new")) {
-            if (!strcmp(op, "cmp")) base_cmp = !strcmp(a1, "rev") ? rev_cmp : !strcmp(a1, "len") ? len_cmp : !strcmp(a1, "ci") ? ci_cmp : qtreetbl_byte_cmp;
+            if (!strcmp(op, "cmp")) base_cmp = !strcmp(a1, "rev") ? rev_cmp : !strcmp(a1, "len") ? len_cmp : !strcmp(a1, "ci") ? ci_cmp : !strcmp(a1, "errno") ? errno_cmp : qtreetbl_byte_cmp;
             if (t && !dead) t->free(t);
             t = qtreetbl(0); qtreetbl_set_compare(t, counting_cmp); dead = 0; continue;
         }
